@@ -169,6 +169,70 @@ func c08EmptyKeyToArray(v interface{}) interface{} {
 
 // refXML renders the document as the standard decoder reports it, in the same shape xmlTreeStr
 // renders the idr tree: E(prefix|uri|local){A(prefix|uri|local)=value...}[children...], T"text".
+// refXMLLastBound renders the document the way the KNOWN deviation does (finding
+// xml:prefix-of-uri-bound-to-two-prefixes): the prefix of a name is not the one written but the one most
+// recently bound, among the declarations in scope, to the name's namespace URI. Everything else as refXML.
+func refXMLLastBound(doc string) string {
+	d := xml.NewDecoder(strings.NewReader(doc))
+	var b strings.Builder
+	type undo struct {
+		uri, prefix string
+		had         bool
+	}
+	bound := map[string]string{"http://www.w3.org/XML/1998/namespace": "xml"}
+	var scopes [][]undo
+	for {
+		t, err := d.Token()
+		if err != nil {
+			break
+		}
+		switch e := t.(type) {
+		case xml.StartElement:
+			var us []undo
+			for _, a := range e.Attr {
+				isDecl, p := false, ""
+				if a.Name.Space == "xmlns" {
+					isDecl, p = true, a.Name.Local
+				} else if a.Name.Space == "" && a.Name.Local == "xmlns" {
+					isDecl = true
+				}
+				if isDecl {
+					prev, had := bound[a.Value]
+					us = append(us, undo{a.Value, prev, had})
+					bound[a.Value] = p
+				}
+			}
+			scopes = append(scopes, us)
+			fmt.Fprintf(&b, "E(%s|%s|%s){", bound[e.Name.Space], e.Name.Space, e.Name.Local)
+			for _, a := range e.Attr {
+				switch {
+				case a.Name.Space == "xmlns":
+					fmt.Fprintf(&b, "A(xmlns||%s)=%q ", a.Name.Local, a.Value)
+				case a.Name.Space == "":
+					fmt.Fprintf(&b, "A(||%s)=%q ", a.Name.Local, a.Value)
+				default:
+					fmt.Fprintf(&b, "A(%s|%s|%s)=%q ", bound[a.Name.Space], a.Name.Space, a.Name.Local, a.Value)
+				}
+			}
+			b.WriteString("}[")
+		case xml.EndElement:
+			us := scopes[len(scopes)-1]
+			scopes = scopes[:len(scopes)-1]
+			for i := len(us) - 1; i >= 0; i-- {
+				if us[i].had {
+					bound[us[i].uri] = us[i].prefix
+				} else {
+					delete(bound, us[i].uri)
+				}
+			}
+			b.WriteString("]")
+		case xml.CharData:
+			fmt.Fprintf(&b, "T%q", string(e))
+		}
+	}
+	return b.String()
+}
+
 func refXML(doc string) (string, bool, error) {
 	d1 := xml.NewDecoder(strings.NewReader(doc))
 	d2 := xml.NewDecoder(strings.NewReader(doc))
@@ -276,7 +340,7 @@ func c08XMLCheck(cs c08Case) (sig, detail string) {
 	kind := "tree-differs"
 	if ambiguous {
 		// known finding: only prefixes differ, and only because one URI is bound to two prefixes
-		if c08StripPrefixes(got) == c08StripPrefixes(want) {
+		if got == refXMLLastBound(cs.Doc) {
 			kind = "prefix-of-uri-bound-to-two-prefixes"
 		}
 	}
@@ -316,6 +380,9 @@ func c08XMLDocs(n int, reduced bool, visit func(doc string) bool) {
 		{"second-prefix-same-uri", ` xmlns:p="u"`, ` xmlns:q="u"`, []string{"", "p:", "q:"}},
 		{"prefix-rebound", ` xmlns:p="u"`, ` xmlns:p="w"`, []string{"", "p:"}},
 		{"default-and-prefix-same-uri", ` xmlns="u" xmlns:p="u"`, "", []string{"", "p:"}},
+		// one child element binds the URI twice more; its siblings after it use the outer prefix again
+		{"two-more-prefixes-on-a-child", ` xmlns:o="u"`, ` xmlns:p="u" xmlns:q="u"`, []string{"", "o:", "p:", "q:"}},
+		{"default-and-prefix-on-a-child", ` xmlns:o="u"`, ` xmlns="u" xmlns:p="u"`, []string{"", "o:", "p:"}},
 	}
 	contents := []string{"", "t", " ", "&amp;&#65;", "<![CDATA[<x>]]>", "<!--c-->", "<?pi x?>", "t<!--c-->u", "a<![CDATA[b]]>c"}
 	attrs := []string{"", ` k="1"`, ` P:k="2"`, ` xml:lang="en"`, ` k="1" P:k="2"`, ` k=""`, ` P:xmlns="u"`}
@@ -350,12 +417,19 @@ func c08XMLDocs(n int, reduced bool, visit func(doc string) bool) {
 					at := attrs[v%len(attrs)]
 					v /= len(attrs)
 					content := contents[v%len(contents)]
-					if pfx == "q:" && i == 0 {
-						valid = false // q is only declared on children
+					// a prefix must be declared on the root or (for a child) on the element itself
+					declared := func(p string) bool {
+						if strings.Contains(ns.rootDecl, "xmlns:"+p+"=") {
+							return true
+						}
+						return i != 0 && (!strings.HasSuffix(ns.name, "-on-a-child") || i == 1) && strings.Contains(ns.childDecl, "xmlns:"+p+"=")
+					}
+					if pfx != "" && !declared(strings.TrimSuffix(pfx, ":")) {
+						valid = false
 					}
 					if strings.Contains(at, "P:") {
 						ap := "p"
-						if len(ns.prefixes) < 2 {
+						if !declared(ap) {
 							valid = false
 						}
 						at = strings.ReplaceAll(at, "P:", ap+":")
@@ -363,8 +437,8 @@ func c08XMLDocs(n int, reduced bool, visit func(doc string) bool) {
 					b.WriteString("<" + pfx + name)
 					if i == 0 {
 						b.WriteString(ns.rootDecl)
-					} else {
-						b.WriteString(ns.childDecl)
+					} else if !strings.HasSuffix(ns.name, "-on-a-child") || i == 1 {
+						b.WriteString(ns.childDecl) // ("...-on-a-child": only the first child declares, its later siblings do not)
 					}
 					b.WriteString(at + ">" + content)
 					for _, k := range kids[i] {
